@@ -411,3 +411,7 @@ META = {
     'technique': 'static analysis: rounding-bound abstract domain over quotient linear forms, sibling cross-check, exhaustive ordering enumeration of the bounds predicate',
     'design_ref': 'DESIGN.md section 5, C10',
 }
+
+
+from . import shared as _shared
+_shared.register('C10', 'C10')
